@@ -120,6 +120,101 @@ func policyArms(info *types.Info, g *cfgq.Graph, region ast.Node) map[string]*cf
 	return out
 }
 
+// policyFact reads a branch fact as a statement about conf.Options.KeyExists:
+// the label compared with and whether the fact says "equal".
+func policyFact(info *types.Info, f cfgq.Fact) (label string, eq bool, ok bool) {
+	be, isBin := ast.Unparen(f.Expr).(*ast.BinaryExpr)
+	if !isBin || (be.Op != token.EQL && be.Op != token.NEQ) {
+		return "", false, false
+	}
+	ke := pat.Expr("conf.Options.KeyExists")
+	for _, pr := range [][2]ast.Expr{{be.X, be.Y}, {be.Y, be.X}} {
+		if ke.Match(info, pr[0], nil) == nil {
+			continue
+		}
+		if s, isS := core.StringConst(info, pr[1]); isS {
+			return s, (be.Op == token.EQL) == f.Val, true
+		}
+	}
+	return "", false, false
+}
+
+// policyEntries finds, for each key_exists value, the points at which the code
+// of region continues knowing that value: the targets of branch edges that
+// establish `KeyExists == v` (a case of a switch over it, an if, a conjunct, a
+// boolean local holding the comparison), and the targets of edges on which
+// every other value has been refuted (the final else of an if-chain, the code
+// after a switch that has no case for v).
+func policyEntries(info *types.Info, g *cfgq.Graph, region ast.Node) (map[string][]cfgq.Point, map[string]cfgq.Fact) {
+	labels := []string{"rewrite", "ignore", "none"}
+	bit := map[string]uint8{"rewrite": 1, "ignore": 2, "none": 4}
+	inRegion := func(b *cfg.Block) bool {
+		c := cfgq.CondOf(b)
+		return c != nil && c.Pos() >= region.Pos() && c.End() <= region.End()
+	}
+	out := map[string][]cfgq.Point{}
+	rep := map[string]cfgq.Fact{} // label -> a fact of the code that says KeyExists == label
+	seenEntry := map[string]map[*cfg.Block]bool{}
+	add := func(l string, b *cfg.Block) {
+		if seenEntry[l] == nil {
+			seenEntry[l] = map[*cfg.Block]bool{}
+		}
+		if !seenEntry[l][b] {
+			seenEntry[l][b] = true
+			out[l] = append(out[l], cfgq.Point{B: b, I: 0})
+		}
+	}
+	type st struct {
+		b    *cfg.Block
+		mask uint8
+	}
+	seen := map[st]bool{}
+	queue := []st{{g.CFG.Blocks[0], 0}}
+	seen[queue[0]] = true
+	for len(queue) > 0 {
+		s := queue[0]
+		queue = queue[1:]
+		for si, t := range s.b.Succs {
+			mask := s.mask
+			stop := false
+			if inRegion(s.b) {
+				for _, f := range g.EdgeFacts(s.b, si) {
+					l, eq, ok := policyFact(info, f)
+					if !ok || bit[l] == 0 {
+						continue
+					}
+					if _, has := rep[l]; !has {
+						rep[l] = cfgq.Fact{Expr: f.Expr, Val: f.Val == eq}
+					}
+					if eq {
+						add(l, t)
+						stop = true
+					} else {
+						mask |= bit[l]
+					}
+				}
+				if !stop && mask != s.mask {
+					for _, l := range labels {
+						if mask == 7&^bit[l] {
+							add(l, t)
+							stop = true
+						}
+					}
+				}
+			}
+			if stop {
+				continue
+			}
+			n := st{t, mask}
+			if !seen[n] {
+				seen[n] = true
+				queue = append(queue, n)
+			}
+		}
+	}
+	return out, rep
+}
+
 func r1r2r3(c *core.Ctx, rre, big, ql *core.Fn) {
 	info := rre.Pkg.TypesInfo
 	g := cfgq.Of(c.Program, rre)
@@ -321,34 +416,74 @@ func r1r2r3(c *core.Ctx, rre, big, ql *core.Fn) {
 		routes = append(routes, route{"restore", &ast.BlockStmt{List: rest, Lbrace: thr.End(), Rbrace: body.Rbrace}})
 	}
 	for _, r := range routes {
-		arms := policyArms(info, g, r.region)
-		if len(arms) == 0 {
+		arms, rep := policyEntries(info, g, r.region)
+		if len(arms["ignore"]) == 0 && len(arms["none"]) == 0 {
 			// K2: the element route does not consult none/ignore at all
 			c.Check("R3.policy", r.name+"/consults-policy", r.region.Pos(), false,
 				"the "+r.name+" route writes elements without looking at key_exists: with key_exists=none or ignore a big key whose name already exists on the target is merged into the existing key instead of being refused/left alone")
 			continue
 		}
-		c.Okf("R3.policy", r.name+"/consults-policy", r.region.Pos(), "switch over key_exists found")
+		c.Okf("R3.policy", r.name+"/consults-policy", r.region.Pos(), "key_exists is consulted")
 		for _, label := range []string{"rewrite", "ignore", "none"} {
-			b, ok := arms[label]
+			entries, ok := arms[label]
 			if !ok {
-				c.Failf("R3.policy", r.name+"/"+label+"/arm", r.region.Pos(), "the %s route has no arm for key_exists=%s", r.name, label)
+				c.Undecidedf("R3.policy", r.name+"/"+label+"/arm", r.region.Pos(), "cannot find where the %s route continues under key_exists=%s (neither a test for it nor a branch on which the other values were refuted)", r.name, label)
 				continue
 			}
-			from := cfgq.Point{B: b, I: 0}
+			// edges that contradict key_exists=label are not taken
+			contra := func(b *cfg.Block, si int) bool {
+				for _, f := range g.EdgeFacts(b, si) {
+					if l, eq, ok := policyFact(info, f); ok && (eq && l != label || !eq && l == label) {
+						return true
+					}
+				}
+				return false
+			}
+			// what is known at the entries: key_exists = label
+			var assume []cfgq.Fact
+			if f, has := rep[label]; has {
+				assume = append(assume, f)
+			} else {
+				for l, f := range rep {
+					if l != label {
+						assume = append(assume, cfgq.Fact{Expr: f.Expr, Val: !f.Val})
+					}
+				}
+			}
+			var w, w2 []string
+			pos := entries[0].B.Nodes
+			at := r.region.Pos()
+			if len(pos) > 0 {
+				at = pos[0].Pos()
+			} else if entries[0].B.Stmt != nil {
+				at = entries[0].B.Stmt.Pos()
+			}
+			// the paths are followed from the function entry, so that what the
+			// branches before an entry established (the key exists, another value
+			// was refuted) takes part in deciding which edges are feasible
+			isEntry := map[*cfg.Block]bool{}
+			for _, e := range entries {
+				isEntry[e.B] = true
+			}
+			via := func(b *cfg.Block) bool { return isEntry[b] }
 			switch label {
 			case "rewrite":
-				w := g.Path(cfgq.Query{From: from, Avoid: isWrite, TargetExit: okExit})
-				c.Check("R3.policy", r.name+"/rewrite/ends-with-write", b.Stmt.Pos(), w == nil,
+				w = g.Path(cfgq.Query{From: g.Entry(), Via: via, Avoid: isWrite, TargetExit: okExit, AvoidEdge: contra, Assume: assume})
+			case "ignore":
+				w = g.Path(cfgq.Query{From: g.Entry(), Via: via, Target: isWrite, AvoidEdge: contra, Assume: assume})
+			case "none":
+				w = g.Path(cfgq.Query{From: g.Entry(), Via: via, Target: isWrite, AvoidEdge: contra, Assume: assume})
+				w2 = g.Path(cfgq.Query{From: g.Entry(), Via: via, TargetExit: okExit, AvoidEdge: contra, Assume: assume})
+			}
+			switch label {
+			case "rewrite":
+				c.Check("R3.policy", r.name+"/rewrite/ends-with-write", at, w == nil,
 					"key_exists=rewrite: every path that returns success must (re)write the value after removing the old key; otherwise the key is deleted and never restored", w...)
 			case "ignore":
-				w := g.Path(cfgq.Query{From: from, Target: isWrite})
-				c.Check("R3.policy", r.name+"/ignore/no-write", b.Stmt.Pos(), w == nil,
+				c.Check("R3.policy", r.name+"/ignore/no-write", at, w == nil,
 					"key_exists=ignore: no value write may be reachable; otherwise the existing target key is modified", w...)
 			case "none":
-				w := g.Path(cfgq.Query{From: from, Target: isWrite})
-				w2 := g.Path(cfgq.Query{From: from, TargetExit: okExit})
-				c.Check("R3.policy", r.name+"/none/error-only", b.Stmt.Pos(), w == nil && w2 == nil,
+				c.Check("R3.policy", r.name+"/none/error-only", at, w == nil && w2 == nil,
 					"key_exists=none: an existing key must end in an error return with the target untouched", append(w, w2...)...)
 			}
 		}
